@@ -236,6 +236,7 @@ func init() {
 			{Engine: "A", Scenario: "wiped-follower", Quick: 3, Thorough: 30},
 			{Engine: "A", Scenario: "promote-idle", Quick: 8, Thorough: 100},
 			{Engine: "A", Scenario: "readd-removed", Quick: 6, Thorough: 60},
+			{Engine: "A", Scenario: "leader-after-install", Params: "seg=1024", Quick: 6, Thorough: 60},
 		},
 		Rule:       "restated as bounded progress: seeded fault histories (partitions, crashes, restarts, membership churn, removed nodes that keep campaigning) followed by heal; within 400 ticks (tick = heartbeat timeout / 4) one leader that every live member follows, a fresh update committed, every live member's state machine caught up, membership stable; a miss is extended 4x: still stuck = violation, late = inconclusive; plus leader stickiness on every vote request handled while a leader is known; directed: a follower whose storage was wiped comes back under the same leader (known finding, see known_findings.json); non-trivial if the run had at least one fault and reached the convergence phase; distinct = distinct abstract trace",
 		Nontrivial: all(ge("faults", 1)),
@@ -296,6 +297,7 @@ func init() {
 			{Engine: "A", Scenario: "compaction-grid", Params: "seg=1024", Quick: 16, Thorough: 300},
 			{Engine: "A", Scenario: "install-crash", Params: "seg=1024", Quick: 12, Thorough: 150},
 			{Engine: "A", Scenario: "snapshot-vs-install", Params: "seg=1024", Quick: 12, Thorough: 120},
+			{Engine: "A", Scenario: "leader-after-install", Params: "seg=1024", Quick: 8, Thorough: 80},
 		},
 		Rule: "seeded live-cluster runs with snapshots on leaders and followers, compaction over 1-4 KiB segments, lagging / isolated followers brought back by entries or by snapshot installation, restarts and crashes; directed: stale suffix covering the snapshot index; every snapshot file is read back (label + id list) when it is published or stored and compared with the global applied sequence and the committed log; unmapped segments are quarantined (PROT_NONE) so that a read through a stale view faults; non-trivial if at least one snapshot file was checked and at least one compaction or installation happened; distinct = distinct abstract trace",
 		Nontrivial: func(st map[string]int64) bool {
